@@ -205,6 +205,11 @@ def lattice_cases():
         for additional in (None, True, False):
             out += [({"t": "seqpos", "k": kind, "items": [item, item, item], "sz": [None, None], "uniq": False,
                       "additional": additional}, v) for v in vals]
+    for cname, cls in sorted(G.ENUMS.items()):
+        names = [m.name for m in cls]
+        for members in (names, names[:1], names[1:], names[:-1]):
+            f = {"t": "enumcls", "cls": cname, "members": members}
+            out += [(f, v) for v in G.enum_neighbours(f)]
     tups = [("tuple", x[1]) for x in lists]
     out += [({"t": "tuple", "items": [item, item, item], "uniq": False}, v) for v in tups]
     out += [({"t": "tuple", "items": [item], "uniq": True}, v) for v in tups]
